@@ -1,8 +1,8 @@
 """C18 Source positions survive preprocessing.
 
 Enumerated: every *forest of line items* with exactly n nodes, for the bounds listed in run() and recorded in the evidence
-(`bounds_completed`).  quick: n <= 3 over the full alphabet in five encodings, n = 4 over QUICK4 (LF); diagnostics and
-execution for n <= 2, .loc for n <= 3.  thorough: n <= 4 over the full alphabet, n = 5 over REDUCED, a sixth encoding,
+(`bounds_completed`).  quick: n <= 3 over the full alphabet in five encodings, n = 4 in LF; diagnostics and
+execution for n <= 2, .loc for n <= 3.  thorough: n <= 4 over the full alphabet, n = 5 over MID, n = 6 over REDUCED, a sixth encoding,
 diagnostics, .loc and execution for n <= 3.
 Leaf items: code line with a probe | blank line | `//` comment line | `//` comment continued by backslash-newline | block
 comment over 1/2/3 physical lines with a probe before and after it | logical line spliced with backslash-newline over 2/3
@@ -34,7 +34,7 @@ BUDGET = {"quick": 900, "thorough": 3000}
 
 LEAVES = ["code", "blank", "slc", "slcs", "bc1", "bc2", "bc3", "sp2", "sp3", "mac", "macl", "line", "linef", "gnu"]
 REDUCED = ["code", "blank", "bc2", "sp2", "line"]          # alphabet of the deepest thorough bound
-QUICK4 = ["code", "blank", "bc2", "sp2", "sp3", "mac", "line", "linef"]   # alphabet of the 4-node bound of the quick tier
+MID = ["code", "blank", "bc2", "sp2", "sp3", "mac", "line", "linef"]   # alphabet of the 5-node bound of the thorough tier
 NLINES = {"code": 1, "blank": 1, "slc": 1, "slcs": 2, "bc1": 1, "bc2": 2, "bc3": 3, "sp2": 2, "sp3": 3, "mac": 4, "macl": 2,
           "line": 1, "linef": 1, "gnu": 1}
 HDR_MAX_LINES = 3
@@ -704,10 +704,12 @@ def run(ctx):
     if thorough:
         phase("E n=4 x {lf,crlf+bom,lf-noeof}", _shard_E, cases_upto(4, nmin=4), 120,
               lambda wd, i, s: (ctx.chibicc, wd, i, s, [], ["lf", "crlf+bom", "lf-noeof"], 0, ("lf",)))
-        phase("E n=5 reduced alphabet x lf", _shard_E, cases_upto(5, REDUCED, nmin=5), 150,
+        phase("E n=5 MID alphabet x lf", _shard_E, cases_upto(5, MID, nmin=5), 150,
+              lambda wd, i, s: (ctx.chibicc, wd, i, s, [], ["lf"], 0, ("lf",)))
+        phase("E n=6 REDUCED alphabet x lf", _shard_E, cases_upto(6, REDUCED, nmin=6), 150,
               lambda wd, i, s: (ctx.chibicc, wd, i, s, [], ["lf"], 0, ("lf",)))
     else:
-        phase("E n=4 quick alphabet x lf", _shard_E, cases_upto(4, QUICK4, nmin=4), 120,
+        phase("E n=4 x lf", _shard_E, cases_upto(4, nmin=4), 120,
               lambda wd, i, s: (ctx.chibicc, wd, i, s, [], ["lf"], 0, ("lf",)))
     # ---- D: diagnostics ----
     phase("D n<=2 x all encodings x {lex,pp,parse}", _shard_D, upto2, 6,
